@@ -46,6 +46,7 @@ pub struct ExecStats {
     pub option_strikes_with_3_or_more_decimals: u64,
     pub window_messages: u64,
     pub twin_sets_mapped: u64,
+    pub one_sided_top_of_book: u64,
 }
 
 pub struct ExecResult {
@@ -110,10 +111,12 @@ fn compare(exp: &ExpEvent, obs: &ObsEvent, sign_encoded: bool) -> Result<(), (&'
             Ok(())
         }
         (ExpBody::L1 { bid, ask }, Body::L1 { bid: ob, ask: oa, update_ns }) => {
-            if *ob != Some((d(&bid.0), d(&bid.1))) {
+            // a price of zero is how these venues state "no level on this side" (an empty side of a thin book)
+            let stated = |l: &(String, String)| if d(&l.0).is_zero() { None } else { Some((d(&l.0), d(&l.1))) };
+            if *ob != stated(bid) {
                 return Err(("event_price_mismatch", format!("best bid: message says {bid:?}, event carries {ob:?}")));
             }
-            if *oa != Some((d(&ask.0), d(&ask.1))) {
+            if *oa != stated(ask) {
                 return Err(("event_price_mismatch", format!("best ask: message says {ask:?}, event carries {oa:?}")));
             }
             if let Some(t) = exp.time_ns {
@@ -190,6 +193,11 @@ fn judge(def: &PairDef, probe: &Probe, outs: &[Out], stats: &mut ExecStats, kind
                 match unused.iter().position(|o| compare(w, o, sign_encoded).is_ok()) {
                     Some(p) => {
                         unused.remove(p);
+                        if let ExpBody::L1 { bid, ask } = &w.body {
+                            if d(&bid.0).is_zero() || d(&ask.0).is_zero() {
+                                stats.one_sided_top_of_book += 1;
+                            }
+                        }
                     }
                     None => {
                         let (sig, detail) = compare(w, events[i.min(events.len() - 1)], sign_encoded).err().unwrap_or(("event_field_mismatch", "no produced event matches".into()));
